@@ -4,6 +4,7 @@ The driver gets the histogram NumPy produced for the same data (`np.histogram(x,
 mechanism (`otsuHist`: cumulative sums, first-maximum argmax, centre) and the specification (`specCrit` at every
 cut point, brute force), and — separately — bins the raw data itself in exact arithmetic (`histogram`, `otsuData`).
 """
+import json
 import math
 import sys
 import warnings
@@ -28,17 +29,36 @@ STRICT_FIRST_OF_RUN = False
 # bins -> first centre through 0/0) is compared with the model and the outcome recorded as a feature
 # ("outside-property:...:as-modelled" / "...:DIFFERS(recorded only)"); it is judged (impl-vs-model) only with this switch on.
 JUDGE_OUTSIDE_PROPERTY = False
+KNOWN_TOP_BINADE = "C15-top-binade-centres"
 
 
 def fnum(v):
     return None if v is None or (isinstance(v, float) and math.isnan(v)) else float(v)
 
 
+def np_dtype_of(case):
+    """the NumPy dtype of the array handed to otsu: `np_dtype` when the case names one (uint8, int16, int32, bool, '>f8',
+    ...), otherwise int64 / float64"""
+    if case.get("np_dtype"):
+        return np.dtype(case["np_dtype"])
+    return np.dtype(np.int64 if case.get("dtype") == "int" else np.float64)
+
+
+def cast_val(case, v):
+    """a value of the abstract case as the array holds it (after conversion to the case's dtype), as int or float"""
+    if v is None:
+        return None
+    dt = np_dtype_of(case)
+    base = np.int64 if case.get("dtype") == "int" else np.float64
+    w = np.array([v], dtype=base).astype(dt)[0]
+    return int(w) if dt.kind in "iub" else float(w)
+
+
 def tiles_of(case):
     """a pattern encoded case as [[pattern, repetitions], ...]: `tiles` as given, `rle` = patterns of length one"""
     if "tiles" in case:
-        return [([v for v in p], int(r)) for p, r in case["tiles"]]
-    return [([v], int(c)) for v, c in case["rle"]]
+        return [([cast_val(case, v) for v in p], int(r)) for p, r in case["tiles"]]
+    return [([cast_val(case, v)], int(c)) for v, c in case["rle"]]
 
 
 def encoded(case):
@@ -73,27 +93,64 @@ def run_otsu(x, *args, **kw):
 
 
 def expand(case):
-    """the flat value sequence of a case: explicit `data`, or pattern encoded: `tiles` = [[pattern, repetitions], ...]
-    (each pattern written out `repetitions` times, one tile after the other; `rle` = [[value, count], ...] is the
-    special case of patterns of length one).  Large arrays: the abstract case stays a few hundred numbers long;
-    NaN = null as in `data`"""
+    """the flat value sequence of a case (float64, or int64 for integer-valued cases): explicit `data`, or pattern
+    encoded: `tiles` = [[pattern, repetitions], ...] (each pattern written out `repetitions` times, one tile after the
+    other; `rle` = [[value, count], ...] is the special case of patterns of length one).  Large arrays: the abstract
+    case stays a few hundred numbers long; NaN = null as in `data`"""
     dt = np.int64 if case.get("dtype") == "int" else np.float64
     if encoded(case):
-        parts = [np.tile(np.array([math.nan if v is None else v for v in p], dtype=dt), r) for p, r in tiles_of(case)]
+        tiles = [([v for v in p], int(r)) for p, r in (case["tiles"] if "tiles" in case else [[[v], c] for v, c in case["rle"]])]
+        parts = [np.tile(np.array([math.nan if v is None else v for v in p], dtype=dt), r) for p, r in tiles]
         return np.concatenate(parts) if parts else np.zeros(0, dtype=dt)
     if case.get("dtype") == "int":
         return np.array(case["data"], dtype=np.int64)
     return np.array([math.nan if v is None else v for v in case["data"]], dtype=np.float64)
 
 
+LAYOUTS = ["C", "F", "strided", "reversed", "transposed", "readonly", "offset"]
+
+
+def lay_out(a, layout):
+    """the same array (same shape, same element at every index) in another memory layout: Fortran order, every
+    second element of a larger buffer along the last axis, a negative stride along the first axis, a transposed view of
+    the transposed copy, a read-only array, a view that starts inside a larger buffer"""
+    if layout in (None, "C"):
+        return a
+    if layout == "F":
+        return np.asfortranarray(a)
+    if layout == "strided":
+        big = np.empty(a.shape[:-1] + (2 * a.shape[-1],), dtype=a.dtype)
+        big[..., 1::2] = a[..., ::-1]         # what lies between the elements: the same values in another order
+        big[..., ::2] = a
+        return big[..., ::2]
+    if layout == "reversed":
+        return a[::-1].copy()[::-1]
+    if layout == "transposed":
+        return a.T.copy().T
+    if layout == "readonly":
+        a = a.copy()
+        a.setflags(write=False)
+        return a
+    if layout == "offset":
+        big = np.empty(a.size + 3, dtype=a.dtype)
+        big[:3] = a.ravel()[:1]
+        big[3:] = a.ravel()
+        return big[3:].reshape(a.shape)
+    raise ValueError("unknown layout " + str(layout))
+
+
 def build(case):
-    return expand(case).reshape(case["shape"])
+    a = expand(case)
+    dt = np_dtype_of(case)
+    if a.dtype != dt:
+        a = a.astype(dt)
+    return lay_out(a.reshape(case["shape"]), case.get("layout"))
 
 
 class C15(Prop):
     id = "C15"
     anchored = ["src/pewlib/process/threshold.py"]
-    cases = {"quick": 140, "thorough": 2400}
+    cases = {"quick": 170, "thorough": 2400}
     rule = ("arrays of 2..1500 (thorough: ..6000) values in 1-3 dimensions: two values only, sizes 2 and 3, uni-, bi- and "
             "multi-modal normal mixtures, heavy tails (lognormal, Cauchy-like), integer-valued incl. int64 arrays and "
             "values exactly on bin edges (0..256), gapped clusters with empty bins, large offsets, negative values, "
@@ -409,12 +466,147 @@ class C15(Prop):
         lo = rng.choice([0.0, -4.0, 1.0, 100.0])
         return {"kind": "stub-histogram", "hist": hist, "lo": lo, "hi": lo + rng.choice([1.0, 8.0, 256.0, 0.5])}
 
+    def gen_few(self, rng, tier):
+        """images with exactly two or three distinct values: populations as unbalanced as 1 : 10^6 (run-length encoded),
+        values a few hundred float steps apart (256 steps is the least np.histogram accepts; below: it raises and the
+        case is undetermined), boolean images"""
+        kind = rng.choice(["two-unbalanced", "two-unbalanced", "two-adjacent", "two-adjacent", "three-valued", "three-valued", "bool"])
+        if kind == "bool":
+            n = rng.choice([2, 3, 10, 1000])
+            v = [int(rng.random() < rng.choice([0.5, 0.1, 0.9])) for _ in range(n)]
+            v[rng.randrange(n)] = 1
+            v[rng.choice([i for i in range(n) if v[i] == 0] or [0])] = 0
+            if sum(v) == n:
+                v[0] = 0
+            return {"kind": "bool", "dtype": "int", "np_dtype": "bool", "shape": [n], "data": v, "scale_exp": rng.choice([1, 3])}
+        a = rng.choice([0.0, 1.0, -3.5, 1e6, rng.uniform(-100, 100), 2.0 ** -20])
+        if kind == "two-adjacent":
+            steps = rng.choice([256, 256, 257, 300, 511, 512, 1000, 4096, 10 ** 6, 255, 2, 1])
+            b = a
+            if steps <= 4096:
+                for _ in range(steps):
+                    b = np_next(b, 1)
+            else:
+                b = a + steps * (np_next(abs(a) or 1.0, 1) - (abs(a) or 1.0))
+            vals = [a, b]
+        elif kind == "two-unbalanced":
+            vals = [a, a + rng.choice([1.0, 0.5, 255.0, 10.0 ** rng.uniform(-3, 6)])]
+        else:
+            d1, d2 = rng.choice([(1.0, 1.0), (1.0, 9.0), (9.0, 1.0), (1.0, 1000.0), (1e-3, 1.0), (0.5, 0.25)])
+            vals = [a, a + d1, a + d1 + d2]
+        big = rng.choice([10 ** 3, 10 ** 5, 10 ** 6])
+        cnts = [rng.choice([1, 1, 2, 7, big, big // 2]) for _ in vals]
+        if max(cnts) < 100:
+            cnts[rng.randrange(len(cnts))] = big
+        rle = [[v, c] for v, c in zip(vals, cnts)]
+        rng.shuffle(rle)
+        if rng.random() < 0.3:       # a population split in two runs: the rare value in the middle of the common one
+            j = max(range(len(rle)), key=lambda i: rle[i][1])
+            v, c = rle[j]
+            if c > 3:
+                rest = [r_ for i, r_ in enumerate(rle) if i != j]
+                cut = rng.randint(1, c - 1)
+                rle = [[v, cut]] + rest + [[v, c - cut]]
+        if rng.random() < 0.25:
+            rle.insert(rng.choice([0, len(rle)]), [None, rng.choice([1, 2, 1000])])
+        n = sum(c for _, c in rle)
+        return {"kind": kind, "dtype": "float", "shape": [n], "rle": rle,
+                "scale_exp": rng.choice([1, 2, 3, 10, -1, -7, 20, -20, -60, 100])}
+
+    def gen_extreme_scale(self, rng, tier):
+        """ordinary data multiplied by m * 2^K, 1 <= m < 2 (not a power of two in general), K up to +-1070: magnitudes
+        whose squares overflow or underflow, down to subnormal values; the largest magnitude stays below 2^1023 (top
+        binade: see `gen_top_binade`).  The scaled run goes back towards ordinary magnitudes, or further out"""
+        while True:
+            kind, dtype, v = self.gen_values(rng, tier)
+            if dtype == "float" and kind not in ("tiny-range",) and len(v) <= 1500:
+                break
+        sgn = rng.choice([1, 1, -1, -1, -1])
+        K = rng.choice([200, 400, 500, 505, 508, 511, 512, 520, 538, 539, 540, 600, 900, 1000, 1010, 1020] +
+                       ([1040, 1060, 1070] if sgn < 0 else []))
+        m = rng.choice([1.0, rng.uniform(1, 2), 1.5])
+        while True:
+            try:
+                data = [math.ldexp(x * m, sgn * K) for x in v]
+            except OverflowError:
+                data = [math.inf]
+            if all(math.isfinite(x) for x in data) and max(abs(x) for x in data) < 2.0 ** 1023:
+                break
+            K -= 7
+        pn = rng.choice([0, 0, 0, 0.1])
+        if pn:
+            data = [None if rng.random() < pn else x for x in data]
+        k = rng.choice([1, -1, 3, -sgn * K, -sgn * (K - 100), -sgn * 2 * K])
+        while True:      # the scaled data stays finite and below the top binade
+            fin = [x for x in data if x is not None]
+            try:
+                sc = [math.ldexp(x, k) for x in fin]
+            except OverflowError:
+                sc = [math.inf]
+            if all(abs(x) < 2.0 ** 1023 for x in sc):
+                break
+            k = k // 2 if abs(k) > 1 else -1
+        return {"kind": "extreme-scale-" + kind, "dtype": "float", "shape": [len(data)], "data": data, "scale_exp": k}
+
+    def gen_top_binade(self, rng):
+        """finite data whose larger end is at least 2^1023 in magnitude (known finding C15-top-binade-centres: the sum
+        of two neighbouring edges overflows in pewlib's bin centres)"""
+        base = rng.choice([[0.0, 1.0, 3.0], [-3.0, -1.0, 0.0], [0.5, 1.0, 1.0, 1.75], [0.0, 0.25, 0.5, 0.5, 1.9],
+                           [-1.9, -1.0, -0.5, -0.5, 0.0]])
+        top = max(abs(x) for x in base)
+        e = 1023 - int(math.floor(math.log2(top)))
+        data = [math.ldexp(x, e) for x in base]
+        rng.shuffle(data)
+        return {"kind": "top-binade", "dtype": "float", "shape": [len(data)], "data": data,
+                "scale_exp": rng.choice([-1, -3, -600, -1022])}
+
+    def decorate(self, case, rng):
+        """the same values as another array: a narrower or byte-swapped dtype that holds them exactly, another memory
+        layout, more dimensions; remove_nan passed positionally"""
+        if case.get("kind") == "stub-histogram":
+            return case
+        vals = [v for v in (case["data"] if "data" in case else [w for p, _ in
+                (case["tiles"] if "tiles" in case else [[[v], c] for v, c in case["rle"]]) for w in p]) if v is not None]
+        if "np_dtype" not in case and vals:
+            if case["dtype"] == "int" and rng.random() < 0.6:
+                lo, hi = min(vals), max(vals)
+                fits = [d for d, (a, b) in (("uint8", (0, 255)), ("int8", (-128, 127)), ("uint16", (0, 65535)),
+                                            ("int16", (-32768, 32767)), ("int32", (-2 ** 31, 2 ** 31 - 1)),
+                                            ("uint32", (0, 2 ** 32 - 1)), (">i4", (-2 ** 31, 2 ** 31 - 1)),
+                                            ("uint64", (0, 2 ** 53))) if a <= lo and hi <= b]
+                if fits:
+                    case["np_dtype"] = rng.choice(fits)
+            elif case["dtype"] == "float" and rng.random() < 0.06:
+                case["np_dtype"] = ">f8"
+        shape = list(case["shape"])
+        if rng.random() < 0.12:
+            # four or five dimensions: unit axes added, and the last axis split when it is even
+            if shape[-1] % 2 == 0 and shape[-1] >= 4 and rng.random() < 0.6:
+                shape = shape[:-1] + [shape[-1] // 2, 2]
+            while len(shape) < rng.choice([4, 5]):
+                shape.insert(rng.randint(0, len(shape)), 1)
+            case["shape"] = shape
+        if rng.random() < 0.3:
+            case["layout"] = rng.choice([l for l in LAYOUTS if l != "C"])
+        if rng.random() < 0.3:
+            case["positional"] = True
+        return case
+
     def generate(self, rng, tier):
+        return self.decorate(self.generate_values(rng, tier), rng)
+
+    def generate_values(self, rng, tier):
         r = rng.random()
-        if r < 0.06:
+        if r < 0.05:
             return self.gen_extreme(rng, tier)
-        if r < 0.085:
+        if r < 0.075:
             return self.gen_large(rng, tier)
+        if r < 0.135:
+            return self.gen_extreme_scale(rng, tier)
+        if r < 0.185:
+            return self.gen_few(rng, tier)
+        if r < 0.195:
+            return self.gen_top_binade(rng)
         if r > 0.96:
             return self.gen_stub(rng)
         if r > 0.94:   # constant arrays (outside the property; the model's NaN path is recorded)
@@ -424,7 +616,7 @@ class C15(Prop):
             if rng.random() < 0.4:
                 v.insert(rng.randint(0, n), None)
             return {"kind": "constant", "dtype": "float", "shape": [len(v)], "data": v, "scale_exp": 1}
-        if r < 0.18:
+        if r < 0.31:
             kind, dtype, v = self.gen_symmetric(rng)
         else:
             kind, dtype, v = self.gen_values(rng, tier)
@@ -490,6 +682,35 @@ class C15(Prop):
                "rle": [[0.0, 1], [254.5 / 256, h - 1], [1.0, h]], "scale_exp": 1}
         yield {"kind": "extreme-cut-first", "dtype": "float", "shape": [2 ** 20 + 1],
                "rle": [[3.5, h - 7], [2.0, h + 7], [258.0, 1]], "scale_exp": -3}
+        # magnitudes whose squares overflow / underflow (the criterion is formed from rescaled centres), subnormal values
+        yield {"kind": "extreme-scale", "dtype": "float", "shape": [3], "data": [0.0, math.ldexp(1.0, 511), math.ldexp(3.0, 511)], "scale_exp": -511}
+        yield {"kind": "extreme-scale", "dtype": "float", "shape": [3], "data": [0.0, math.ldexp(1.0, -539), math.ldexp(3.0, -539)], "scale_exp": 539}
+        yield {"kind": "extreme-scale", "dtype": "float", "shape": [2, 3],
+               "data": [math.ldexp(v, 1020) for v in (-1.75, 1.5, 1.25, -1.0, 1.9, 1.6)], "scale_exp": -2040}
+        yield {"kind": "extreme-scale", "dtype": "float", "shape": [6],
+               "data": [math.ldexp(v, -1066) for v in (0.0, 1.0, 3.0, 3.0, 2.5, 0.25)], "scale_exp": 1066}
+        yield {"kind": "extreme-scale", "dtype": "float", "shape": [5],
+               "data": [v * 1.7e150 for v in (0.3, 1.1, 3.9, 4.0, 0.31)], "scale_exp": -1000}
+        # the top binade: finite data, the sum of two neighbouring edges overflows (known finding C15-top-binade-centres)
+        yield {"kind": "top-binade", "dtype": "float", "shape": [3], "data": [0.0, math.ldexp(1.0, 1022), math.ldexp(3.0, 1022)], "scale_exp": -1022}
+        yield {"kind": "top-binade", "dtype": "float", "shape": [3], "data": [math.ldexp(-3.0, 1022), math.ldexp(-1.0, 1022), 0.0], "scale_exp": -3}
+        # dtypes and memory layouts
+        yield {"kind": "int255", "dtype": "int", "np_dtype": "uint8", "shape": [4, 4], "layout": "F",
+               "data": [0, 10, 12, 200, 255, 9, 11, 201, 13, 199, 198, 12, 10, 9, 202, 8], "scale_exp": 1}
+        yield {"kind": "poisson", "dtype": "int", "np_dtype": "int16", "shape": [2, 2, 2], "layout": "strided",
+               "data": [-300, -290, 5, 7, 6, -295, 1000, 4], "scale_exp": 2}
+        yield {"kind": "bool", "dtype": "int", "np_dtype": "bool", "shape": [5], "data": [1, 0, 1, 1, 0], "scale_exp": 1}
+        yield {"kind": "bi", "dtype": "float", "np_dtype": ">f8", "shape": [1, 3, 1, 2], "layout": "reversed", "positional": True,
+               "data": [0.5, None, 7.25, 0.75, 8.0, 7.5], "scale_exp": -3}
+        yield {"kind": "bi", "dtype": "float", "shape": [3, 2], "layout": "readonly",
+               "data": [0.5, 1.0, 7.25, 0.75, 8.0, None], "scale_exp": 5}
+        yield {"kind": "bi", "dtype": "float", "shape": [2, 3], "layout": "transposed", "data": [0.5, 1.0, 7.25, 0.75, 8.0, 7.0], "scale_exp": 1}
+        yield {"kind": "bi", "dtype": "float", "shape": [6], "layout": "offset", "data": [0.5, 1.0, 7.25, 0.75, 8.0, 7.0], "scale_exp": 1}
+        # two values 1 : 10^6, the rare one in the middle; two values 256 float steps apart; three values
+        yield {"kind": "two-unbalanced", "dtype": "float", "shape": [10 ** 6 + 1], "rle": [[2.5, 400000], [7.0, 1], [2.5, 600000]], "scale_exp": 1}
+        yield {"kind": "two-adjacent", "dtype": "float", "shape": [10 ** 5 + 2],
+               "rle": [[1.0 + 256 * EPS, 1], [1.0, 10 ** 5], [1.0 + 256 * EPS, 1]], "scale_exp": -1}
+        yield {"kind": "three-valued", "dtype": "float", "shape": [1003], "rle": [[0.0, 1], [1.0, 1000], [1000.0, 2]], "scale_exp": 2}
         # more than 2^21 elements, value by flat index (pattern encoded).  1500 x 1500: flat background, five bright
         # pixels at odd flat indices (two-valued)
         pos, tiles, at = [101, 70001, 1234567, 2000001, 2249999], [], 0
@@ -511,15 +732,18 @@ class C15(Prop):
         if case["kind"] == "stub-histogram":
             return self.eval_stub(case, ctx)
         x = build(case)
-        isint = case.get("dtype") == "int"
+        isfloat = x.dtype.kind == "f"
+        isint = not isfloat
         flat = x.ravel()
-        clean = flat if isint else flat[~np.isnan(flat)]
+        clean = flat[~np.isnan(flat)] if isfloat else flat
         has_nan = clean.size != flat.size
-        feats = {f"kind:{case['kind']}", f"ndim{len(case['shape'])}", "dtype:" + ("int64" if isint else "float64"),
+        feats = {f"kind:{case['kind']}", f"ndim{len(case['shape'])}", "dtype:" + x.dtype.str.lstrip("<|="),
                  "size:" + ("2" if clean.size == 2 else "3" if clean.size == 3 else "<=50" if clean.size <= 50 else ">50")}
+        if case.get("layout") not in (None, "C"):
+            feats.add("layout:" + case["layout"])
         # the distinct values: of a pattern encoded case they are read off the patterns (its value sequence is large)
         distinct = (np.array(sorted({float(v) for v, _ in runs_of(case)}), dtype=np.float64) if encoded(case)
-                    else np.unique(clean))
+                    else np.unique(clean).astype(np.float64))
         if distinct.size < 2:
             return self.eval_outside(case, x, flat, clean, ctx)
         lo, hi = float(clean.min()), float(clean.max())
@@ -531,46 +755,68 @@ class C15(Prop):
                 sub = clean[::s_]
                 if float(sub.min()) != lo or float(sub.max()) != hi:
                     feats.add("large:every-%d-th-element-misses-min-or-max" % s_)
-                elif encoded(case) and len({float(v) for v, _ in runs_of(case)}) <= LIMIT and \
-                        np.unique(sub).size < distinct.size:
+                elif encoded(case) and distinct.size <= LIMIT and np.unique(sub).size < distinct.size:
                     feats.add("large:every-%d-th-element-misses-a-value" % s_)
         hist = edges = None
-        try:
-            hist, edges = np.histogram(clean, bins=BINS)
-        except ValueError:  # "Too many bins for data range": 256 finite-sized float bins do not exist
-            pass
+        with np.errstate(all="ignore"), warnings.catch_warnings():
+            warnings.simplefilter("ignore")
+            try:
+                hist, edges = np.histogram(clean, bins=BINS)
+            except ValueError:  # "Too many bins for data range": 256 finite-sized float bins do not exist
+                pass
         # --- np.histogram against its double-precision model (every value, no tolerance)
         binning_ok, bfeats, drep = self.check_binning(case, flat, clean, isint, hist, edges, ctx)
         if hist is None:
             return outcome({}, {}, {}, undetermined=binning_ok, model_ok=binning_ok,
                            features=feats | bfeats | {"range-below-float-resolution(histogram raises)"},
                            note="range below float resolution")
+        big_mag = max(abs(lo), abs(hi))
+        if big_mag >= 2.0 ** 500 or big_mag <= 2.0 ** -500:
+            feats.add("extreme-scale:" + ("max|x|>=2^1023" if big_mag >= 2.0 ** 1023 else "max|x|>=2^500" if big_mag >= 1
+                                          else "subnormal-values" if big_mag < 2.0 ** -1022 else "max|x|<=2^-500"))
         # --- the implementation at its observation point (and the two relational runs)
         arg = x if not has_nan else clean.reshape(-1)
         t = run_otsu(arg)                       # data without NaNs
-        t_rm = run_otsu(x, remove_nan=True)     # data as given, NaN removal requested
+        # NaN removal requested on the data as given (positionally or by keyword)
+        t_rm = run_otsu(x, True) if case.get("positional") else run_otsu(x, remove_nan=True)
         k = case["scale_exp"]
-        scaled = (arg * (2 ** k)) if (isint and k >= 0) else (arg * (2.0 ** k))
+        with np.errstate(all="ignore"):
+            if isfloat:
+                scaled = np.ldexp(arg, k).astype(arg.dtype)
+            elif k >= 0 and max(abs(lo), abs(hi)) * 2.0 ** k < 2.0 ** 62:
+                scaled = arg.astype(np.int64) * (2 ** k)
+            else:
+                scaled = np.ldexp(arg.astype(np.float64), k)
         t_sc = run_otsu(scaled)
-        impl = {"threshold": t, "threshold_remove_nan": t_rm, "threshold_scaled": t_sc}
-        # --- Lean: mechanism (NaN-carrying) + brute-force specification on NumPy's histogram
+        # the same image once more, after other calls (a result that depends on earlier calls is judged as well)
+        t2 = run_otsu(arg)
+        impl = {"threshold": t, "threshold_remove_nan": t_rm, "threshold_scaled": t_sc, "threshold_second_call": t2}
+        # --- Lean: mechanism (NaN-carrying, rescaled centres) + brute-force specification on NumPy's histogram
         rep = ctx.driver.call("c15.hist", hist=[int(v) for v in hist], edges=[core.rat(float(v)) for v in edges])
-        centres = [float(unrat(c)) for c in rep["centres"]]
-        crit = [unrat(c) for c in rep["spec_crit"]]
+        centres_exact = [unrat(c) for c in rep["centres"]]
+        centres = [float(c) for c in centres_exact]
+        crit = [unrat(c) for c in rep["spec_crit"]]      # in units of 4^scale_exp
         best = unrat(rep["spec_best"])
-        du = abs(float(unrat(rep["spec_best_du"])))
-        tol = 1e-9 + 2048 * EPS * max(abs(float(edges[0])), abs(float(edges[-1]))) / du if du > 0 else 1.0
+        du = abs(float(unrat(rep["spec_best_du"])))       # in units of 2^scale_exp
+        tol = 1e-9 + 2048 * EPS * float(unrat(rep["outer_scaled"])) / du if du > 0 else 1.0
         near = [j for j, c in enumerate(crit) if c >= best * (1 - Fraction(tol))]
         cls = rep["class_start"]                # first cut of the run of empty bins each cut lies in (Lean: classStart)
         near_classes = sorted({cls[j] for j in near})
         model_t = float(unrat(rep["threshold"]))
         model = {"threshold": model_t, "index": rep["index"], "threshold_remove_nan": model_t,
-                 "threshold_scaled": math.ldexp(model_t, k)}
-        spec = {"best_index": rep["spec_best_index"], "best_criterion": float(best), "cuts_within_rounding": near[:8],
-                "tie_classes_within_rounding": near_classes[:8],
+                 "threshold_scaled": math.ldexp(model_t, k), "threshold_second_call": model_t,
+                 "scale_exp": rep["scale_exp"]}
+        spec = {"best_index": rep["spec_best_index"], "best_criterion(units 4^scale_exp)": float(best),
+                "cuts_within_rounding": near[:8], "tie_classes_within_rounding": near_classes[:8],
                 "centre_of_best": centres[rep["spec_best_index"]], "range": [lo, hi]}
+        # pewlib's own arithmetic on finite data: the sum of two neighbouring edges overflows in the top binade
+        with np.errstate(all="ignore"):
+            centre_sum_overflows = bool(np.any(np.isinf(edges[1:] + edges[:-1])))
+        if centre_sum_overflows:
+            feats.add("top-binade:centre-sum-overflows")
+        note = json.dumps({"centre_sum_overflows": centre_sum_overflows, "max_abs": big_mag >= 2.0 ** 1023})
         if any(isinstance(v, dict) for v in impl.values()):
-            return outcome(impl, model, spec, spec_ok=False, model_ok=False, features=feats | bfeats)
+            return outcome(impl, model, spec, spec_ok=False, model_ok=False, features=feats | bfeats, note=note)
         # (a) one of the 256 centres
         idx = [j for j, c in enumerate(centres) if c == t]
         is_centre = len(idx) >= 1
@@ -580,25 +826,56 @@ class C15(Prop):
         in_range = lo <= t < hi
         # (c) attains the maximum between-class criterion over all cut points, up to rounding
         attains = ki is not None and ki <= BINS - 2 and ki in near
-        impl["criterion_at_returned_cut"] = None if ki is None or ki > BINS - 2 else float(crit[ki])
+        impl["criterion_at_returned_cut(units 4^scale_exp)"] = None if ki is None or ki > BINS - 2 else float(crit[ki])
         # (d) two-valued images are separated
         separates = True
         if distinct.size == 2:
             feats.add("two-valued")
             separates = (not (float(distinct[0]) > t)) and float(distinct[1]) > t
-        # (e) power-of-two scaling, (f) NaN removal
-        scales = t_sc == math.ldexp(t, k)
+        elif distinct.size == 3:
+            feats.add("three-valued")
+        # (e) power-of-two scaling.  The clause can only be met together with "is a bin centre" when NumPy's edges of the
+        # scaled data are the scaled edges (always, short of over/underflow inside np.histogram): judged then
+        with np.errstate(all="ignore"), warnings.catch_warnings():
+            warnings.simplefilter("ignore")
+            try:
+                hist_s, edges_s = np.histogram(scaled, bins=BINS)
+                edges_scale = (np.array_equal(hist_s, hist)
+                               and np.array_equal(np.asarray(edges_s, dtype=np.float64),
+                                                  np.ldexp(np.asarray(edges, dtype=np.float64), k))
+                               and bool(np.all(np.isfinite(edges_s))))
+            except ValueError:
+                edges_scale = False
+        # ... and when the bin centres, before and after scaling, are numbers a double can hold (the midpoint of two
+        # subnormal edges may not be one)
+
+        def representable(c, e):
+            try:
+                return Fraction(math.ldexp(float(c), e)) == c * Fraction(2) ** e
+            except OverflowError:
+                return False
+        centres_scale = all(representable(c, 0) and representable(c, k) for c in centres_exact)
+        if edges_scale and centres_scale:
+            scales = t_sc == math.ldexp(t, k)
+        else:
+            scales = True
+            feats.add("scaling-not-judged:" + ("numpy-edges-of-scaled-data-are-not-the-scaled-edges" if not edges_scale
+                                               else "a-bin-centre-is-not-a-double(subnormal)"))
+        # (f) NaN removal; and the second call on the same image
         nan_same = t_rm == t
+        again = t2 == t
         feats.add("scale:2^%+d" % k)
+        if case.get("positional"):
+            feats.add("remove_nan-passed-positionally")
         if has_nan:
             feats.add("with-NaN")
             if math.isnan(float(flat[0])):
                 feats.add("NaN-first")
             if math.isnan(float(flat[-1])):
                 feats.add("NaN-last")
-        spec_ok = is_centre and in_range and attains and separates and scales and nan_same
+        spec_ok = is_centre and in_range and attains and separates and scales and nan_same and again
         impl["checks"] = {"is_centre": is_centre, "in_[min,max)": in_range, "attains_max": attains, "separates": separates,
-                          "scales": scales, "nan_removed_same": nan_same}
+                          "scales": scales, "nan_removed_same": nan_same, "second_call_same": again}
         spec["checks"] = {kk: True for kk in impl["checks"]}
         if int(np.count_nonzero(hist == 0)) > 0:
             feats.add("empty-bins")
@@ -623,8 +900,12 @@ class C15(Prop):
             else:
                 feats.add("extreme-cut:optimum-cuts-off-the-outlier")
         # --- correspondence with the mechanism model.  The histogram comes from data with two distinct values, so
-        # its end bins are occupied (`guard`): no class is empty, no NaN arises, the mechanism is the specification.
+        # its end bins are occupied (`guard`): no class is empty, no NaN arises, the mechanism is the specification;
+        # the rescaling step moves neither the argmax nor the value (`rescaling_keeps_argmax`), the rescaled centres
+        # are below one in magnitude (`scaled_centres_bounded`)
         model_ok = rep["guard"] and rep["first_nan"] is None and rep["mech_is_spec"] and rep["model_index_is_best"]
+        model_ok = (model_ok and rep["unscaled_index"] == rep["index"] and rep["unscaled_threshold"] == rep["threshold"]
+                    and rep["scaled_centres_below_one"] and rep["spec_units_agree"])
         model_ok = model_ok and binning_ok
         # Which maximiser.  Cuts in one run of empty bins separate the same two groups: their class sums, hence all
         # float inputs of the criterion, are identical (Lean: `empty_run_ties`), the float criterion is the same number
@@ -667,7 +948,19 @@ class C15(Prop):
             feats.add("outside-property:NaN-kept->ValueError:" + ("as-modelled" if agrees else "DIFFERS(recorded only)"))
             if JUDGE_OUTSIDE_PROPERTY and not agrees:
                 model_ok = False
-        return outcome(impl, model, spec, spec_ok=spec_ok, model_ok=model_ok, features=feats)
+        return outcome(impl, model, spec, spec_ok=spec_ok, model_ok=model_ok, features=feats, note=note)
+
+    def known(self, case, out):
+        """`C15-top-binade-centres`: data whose larger end is at least 2^1023 in magnitude, where pewlib's
+        `bin_edges[1:] + bin_edges[:-1]` overflows for at least one pair of neighbouring edges (evaluated on the edges
+        NumPy returned for this case).  Nothing else is a known finding."""
+        try:
+            note = json.loads(out.get("note") or "{}")
+        except ValueError:
+            return None
+        if note.get("centre_sum_overflows") and note.get("max_abs"):
+            return KNOWN_TOP_BINADE
+        return None
 
     def check_binning(self, case, flat, clean, isint, hist, edges, ctx):
         """np.histogram(clean, bins=256) against `npHistogram` (Lean `Float` = IEEE binary64): the same counts and
